@@ -3,11 +3,14 @@ package checks
 import (
 	"bytes"
 	"fmt"
+	"regexp"
 	"sort"
+	"strings"
 
 	"github.com/idena-network/idena-go/blockchain/types"
 	"github.com/idena-network/idena-go/common"
 	"github.com/idena-network/idena-go/consensus"
+	"github.com/idena-network/idena-go/core/appstate"
 	"github.com/idena-network/idena-go/ipfs"
 	"github.com/idena-network/idena-go/protocol"
 
@@ -65,8 +68,20 @@ type branch struct {
 	txs    []*types.Transaction
 }
 
-func runC08(r *vfw.Run) {
+func runC08(r *vfw.Run) { forkScenario(r, false) }
+
+// forkScenario: a network splits, both sides build certified blocks, one node is offered the other side's branch through
+// the real fork resolver. purity=false is C08 (Byzantine peer, adoption oracles). purity=true is C01's view of the same
+// situation: the peer is honest, and what is judged is that the blocks - which the peer's side validated and applied with
+// its head at their parent - get the same verdict and the same result from a node that validates them speculatively on
+// top of the common ancestor while its own head is somewhere else.
+func forkScenario(r *vfw.Run, purity bool) {
 	o := scen.Opts{MinIdent: 3, MaxIdent: 16, CeremonySoon: r.Choose("c08.ceremony", 3) == 0}
+	if purity {
+		// small networks whose size changes on one side of the split (kills, a ceremony) are where head and ancestor differ most
+		o.MinIdent, o.MaxIdent = 2, 10
+		o.CeremonySoon = r.Choose("c01.fork.ceremony", 2) == 0
+	}
 	s := scen.New(r, o)
 	defer s.Close()
 	nodes := startReplicas(r, s)
@@ -148,7 +163,7 @@ func runC08(r *vfw.Run) {
 	L.Do(func() { hashes = L.Chain.GetTopBlockHashes(100) })
 	// an honest peer keeps certificates for permanent-certificate blocks and for its latest blocks only: in some runs the
 	// certificates of the other blocks of its branch are gone from its store before it is asked
-	if r.Choose("c08.weakcertsgone", 3) == 0 {
+	if !purity && r.Choose("c08.weakcertsgone", 3) == 0 {
 		P.Do(func() {
 			head := P.Chain.Head.Height()
 			for _, b := range theirs.blocks {
@@ -172,7 +187,11 @@ func runC08(r *vfw.Run) {
 	}
 	tampered := "" // what makes the fork invalid or uncertified, "" = honest
 	tip := len(wire) - 1
-	switch r.Choose("c08.byz", 14) {
+	byz := 0
+	if !purity {
+		byz = r.Choose("c08.byz", 14)
+	}
+	switch byz {
 	case 0, 1, 2, 3:
 		// honest
 	case 4:
@@ -280,6 +299,10 @@ func runC08(r *vfw.Run) {
 	if pv != nil {
 		r.Violate("C08:fork-processing-panicked", "%v\n%s", pv, st)
 	}
+	if purity {
+		c01ForkVerdict(r, s, L, P, got, perr, aerr, adopted)
+		return
+	}
 	r.Logf("fork offer: own=%d blocks theirs=%d bundles=%d byz=%q -> processErr=%v applyErr=%v adopted=%v", len(own.blocks), len(theirs.blocks), len(wire), tampered, perr, aerr, adopted)
 	if aerr != nil {
 		r.Probe("apply_fork_failed_midway")
@@ -292,6 +315,7 @@ func runC08(r *vfw.Run) {
 		}
 		if tampered == "" {
 			r.Probe("honest_fork_refused(policy_or_other)")
+			r.Probe("honest_refusal:" + refusalReason(perr))
 		} else {
 			r.Probe("tampered_fork_refused")
 		}
@@ -499,5 +523,70 @@ func orHonest(s string) string {
 func c08sample(r *vfw.Run, s *scen.Scn, own, theirs *branch, tampered string, adopted bool, err error) {
 	if r.Sample == nil {
 		r.Sample = map[string]interface{}{"identities": len(s.Ids), "own_branch_blocks": len(own.blocks), "peer_branch_blocks": len(theirs.blocks), "byzantine_operator": tampered, "adopted": adopted, "error": fmt.Sprint(err), "trace_tail": tail(r.W.Trace, 6)}
+	}
+}
+
+var reHexNum = regexp.MustCompile(`0x[0-9a-fA-F]+|[0-9a-fA-F]{8,}|[0-9]+`)
+
+// refusalReason reduces a fork resolver error to its kind (numbers, hashes and addresses removed).
+func refusalReason(err error) string {
+	if err == nil {
+		return "none"
+	}
+	t := err.Error()
+	if i := strings.Index(t, "err="); i >= 0 {
+		t = t[i+4:]
+	}
+	t = reHexNum.ReplaceAllString(t, "#")
+	if len(t) > 60 {
+		t = t[:60]
+	}
+	return t
+}
+
+// c01ForkVerdict is the C01 oracle of the fork scenario (see forkScenario).
+func c01ForkVerdict(r *vfw.Run, s *scen.Scn, L, P *simnode.Node, got []types.BlockBundle, perr, aerr error, adopted bool) {
+	r.Logf("honest fork offer: %d bundles -> processErr=%v applyErr=%v adopted=%v", len(got), perr, aerr, adopted)
+	validated := perr == nil && (adopted || aerr != nil)
+	if perr != nil && strings.Contains(perr.Error(), "unacceptable fork") && len(got) > 0 {
+		// the resolver's own validation refused: find the block and whether it is the block's validation (and not a
+		// certificate) that fails - the same loop without the certificate checks
+		validated = true
+		sort.SliceStable(got, func(i, j int) bool { return got[i].Block.Height() < got[j].Block.Height() })
+		var idx int
+		var st *appstate.AppState
+		var terr error
+		pv, stk := L.Do(func() { idx, st, terr = L.Chain.VerifSubChainTrace(got[0].Block.Height()-1, got) })
+		if pv != nil {
+			r.Violate("C01:validation-panicked", "speculative validation of an honest fork: %v\n%s", pv, stk)
+		}
+		if terr != nil && idx >= 0 && idx < len(got) {
+			b := got[idx].Block
+			diff := ""
+			P.Do(func() {
+				if ps, e := P.App.Readonly(b.Height()); e == nil {
+					diff = scen.DiffStates(st, ps)
+				} else {
+					diff = " (peer's state at that height: " + e.Error() + ")"
+				}
+			})
+			r.Violate("C01:fork-context-recomputes-different-result", "node %d (head h=%d) validating the honest branch of node %d on top of the common ancestor h=%d rejects block h=%d (%d txs, flags %b), which node %d's side validated and applied at its head: %v; network size at the validating node's head %d, in its speculative state %d; its speculative state (A) vs the peer's committed state (B):%s",
+				L.ID, L.Chain.Head.Height(), P.ID, got[0].Block.Height()-1, b.Height(), len(b.Body.Transactions), b.Header.Flags(), P.ID, terr, L.App.ValidatorsCache.NetworkSize(), st.ValidatorsCache.NetworkSize(), diff)
+		}
+		r.Probe("fork_refused_for_certificate_reason")
+	}
+	if adopted {
+		h := L.Chain.Head.Height()
+		if P.Chain.Head.Height() == h {
+			if a, b := c01Observables(P, h), c01Observables(L, h); a != b {
+				r.Violate("C01:replicas-differ-after-same-block", "node %d, which switched to the branch of node %d, differs from it at the same head h=%d: %s", L.ID, P.ID, h, oracle.FirstTextDiff(a, b))
+			}
+		}
+		r.Probe("fork_adopted")
+	}
+	r.Fault("validated_on_common_ancestor_with_head_elsewhere")
+	r.Case(r.W.Fingerprint(), validated)
+	if r.Sample == nil {
+		r.Sample = map[string]interface{}{"scenario": "fork context", "bundles": len(got), "adopted": adopted, "error": fmt.Sprint(perr), "trace_tail": tail(r.W.Trace, 6)}
 	}
 }
